@@ -17,6 +17,8 @@ import (
 
 	"pgregory.net/rapid"
 	"seehuhn.de/go/pdf"
+	"seehuhn.de/go/pdf/graphics/bitmap"
+	"seehuhn.de/go/pdf/internal/filter/jbig2"
 	"seehuhn.de/go/pdf/verif/internal/gen"
 	"seehuhn.de/go/pdf/verif/internal/vt"
 )
@@ -952,6 +954,43 @@ func genCase(t *rapid.T) Case {
 			c.Direct = rapid.IntRange(-1, 0).Draw(t, "direct")
 		}
 
+	case branch >= 91 && branch < 94: // JBIG2 symbol dictionary + text region segments
+		c.Origin = "jbig2-text"
+		ts := textSpec{
+			huff:       rapid.IntRange(0, 3).Draw(t, "huff") != 0,
+			refine:     rapid.SampledFrom([]int{0, 1, 2, 2, 2, 3}).Draw(t, "refine"),
+			nSyms:      rapid.IntRange(1, 4).Draw(t, "nsyms"),
+			symSize:    rapid.SampledFrom([]int{4, 8, 16, 32, 32}).Draw(t, "symsize"),
+			nInst:      rapid.SampledFrom([]int{1, 2, 4, 4, 6, 9, 16, 40}).Draw(t, "ninst"),
+			pageMul:    rapid.SampledFrom([]int{1, 1, 1, 2, 8}).Draw(t, "pagemul"),
+			corner:     rapid.IntRange(0, 3).Draw(t, "corner"),
+			transposed: rapid.IntRange(0, 4).Draw(t, "transposed") == 0,
+			combOp:     rapid.IntRange(0, 4).Draw(t, "combop"),
+			strips:     rapid.SampledFrom([]int{1, 1, 2, 4}).Draw(t, "strips"),
+			defPixel:   rapid.IntRange(0, 1).Draw(t, "defpixel"),
+			tail:       rapid.Bool().Draw(t, "tail"),
+			seed:       rapid.Uint64().Draw(t, "tseed"),
+		}
+		if rapid.IntRange(0, 9).Draw(t, "large") == 0 {
+			ts.large = true
+		}
+		var ok bool
+		body, c.Tags, c.ExpectOut, ok = ts.build()
+		if !ok {
+			c.Origin = "jbig2-text-unbuildable"
+			body = vt.NewRand(ts.seed).Bytes(64)
+		}
+		if !ts.large && rapid.IntRange(0, 5).Draw(t, "mut") == 0 {
+			c.Origin = "jbig2-text-mutated"
+			c.Tags, c.ExpectOut = nil, 0
+			body = mutateBody(body, rapid.Uint64().Draw(t, "mseed"), rapid.IntRange(1, 2).Draw(t, "nmut"), nil)
+		}
+		setChain([]string{"JBIG2Decode"}, nil)
+		c.Direct = rapid.IntRange(-1, 0).Draw(t, "direct")
+		if ts.large {
+			c.Direct = 0 // the single-filter allocation bound is the oracle which sees an unaccounted bitmap
+		}
+
 	case branch >= 87 && branch < 91: // JBIG2 halftone regions from the harness's own segment writer
 		c.Origin = "jbig2-halftone"
 		h := halftoneSpec{
@@ -1176,7 +1215,7 @@ func genCase(t *rapid.T) Case {
 	if strings.HasPrefix(c.Origin, "ccitt-bomb") && c.Mode != 0 && rapid.IntRange(0, 3).Draw(t, "drainbomb") != 0 {
 		c.Mode = 0
 	}
-	if c.ProgScans != 0 || strings.HasSuffix(c.Origin, "-over-bomb") || c.Origin == "jbig2-halftone" {
+	if c.ProgScans != 0 || strings.HasSuffix(c.Origin, "-over-bomb") || c.Origin == "jbig2-halftone" || c.Origin == "jbig2-text" {
 		c.Mode = 0
 	}
 	if c.ProgScans < 0 {
@@ -1767,4 +1806,166 @@ func repeatScans(b []byte, k int) []byte {
 		out = append(out, b[sos:end]...)
 	}
 	return append(out, 0xff, 0xd9)
+}
+
+// ---------------------------------------------------------------------------
+// JBIG2 symbol dictionaries and text regions
+//
+// These streams are built with the encoder helpers of the library's internal
+// jbig2 package (EncodeSymbolDictSegment, EncodeTextRegionSegment[Huffman],
+// EncodeGenericRegionSegment, WriteSegmentHeader, WritePageInfo); writing a
+// Huffman text-region coder with refinement for the harness would be a second
+// JBIG2 encoder.  Only the generator depends on them: the oracles judge what
+// the decoder does with the bytes (no panic, error class, allocation bound).
+
+type textSpec struct {
+	huff       bool // SBHUFF
+	refine     int  // 0: SBREFINE=0; 1: every instance refined; 2: first instance refined, the others plain; 3: random mix
+	nSyms      int
+	symSize    int
+	nInst      int
+	pageMul    int // page = pageMul x symbol size (1: the live counter of the pool is as small as it gets)
+	corner     int
+	transposed bool
+	combOp     int
+	strips     int
+	defPixel   int
+	tail       bool // a generic region after the text region
+	large      bool // see buildLarge
+	seed       uint64
+}
+
+func patternBitmap(w, h, seed int) *bitmap.Bitmap {
+	bm := bitmap.New(w, h)
+	for y := 0; y < h; y++ {
+		for x := 0; x < w; x++ {
+			bm.SetPixel(x, y, (x*7+y*13+seed)%5 < 2)
+		}
+	}
+	return bm
+}
+
+func (ts textSpec) build() (body []byte, tags []string, expectOut int, ok bool) {
+	defer func() {
+		if recover() != nil {
+			body, tags, expectOut, ok = nil, nil, 0, false
+		}
+	}()
+	if ts.large {
+		return ts.buildLarge()
+	}
+	r := vt.NewRand(ts.seed)
+	sz := ts.symSize
+	var symbols []*bitmap.Bitmap
+	for i := 0; i < ts.nSyms; i++ {
+		symbols = append(symbols, patternBitmap(sz, sz, i))
+	}
+	page := sz * ts.pageMul
+	var inst []jbig2.SymbolInstance
+	nRef, nPlain := 0, 0
+	for i := 0; i < ts.nInst; i++ {
+		id := r.Intn(ts.nSyms)
+		in := jbig2.SymbolInstance{SymID: id, T: (i / 4) * ts.strips, S: (i % 4) * sz, Wi: sz, Hi: sz}
+		refined := ts.refine == 1 || (ts.refine == 2 && i == 0) || (ts.refine == 3 && r.Intn(2) == 0)
+		if refined {
+			bm := patternBitmap(sz, sz, id)
+			bm.SetPixel(1%sz, 1%sz, !bm.GetPixel(1%sz, 1%sz))
+			bm.SetPixel(sz-1, sz/2, !bm.GetPixel(sz-1, sz/2))
+			in.Bitmap = bm
+			nRef++
+		} else {
+			nPlain++
+		}
+		inst = append(inst, in)
+	}
+	var tr []byte
+	if ts.huff {
+		var err error
+		tr, err = jbig2.EncodeTextRegionSegmentHuffman(page, page, 0, 0, inst, symbols, ts.corner, ts.transposed,
+			bitmap.CombOp(ts.combOp), ts.strips, 0, ts.defPixel)
+		if err != nil {
+			return nil, nil, 0, false
+		}
+	} else {
+		tr = jbig2.EncodeTextRegionSegment(page, page, 0, 0, inst, symbols, ts.corner, ts.transposed,
+			bitmap.CombOp(ts.combOp), ts.strips, 0, ts.defPixel)
+	}
+	sd := jbig2.EncodeSymbolDictSegment(symbols, 1)
+	body = jbig2.WriteSegmentHeader(nil, 0, 0, 1, nil, uint32(len(sd)))
+	body = append(body, sd...)
+	pi := jbig2.WritePageInfo(nil, page, page)
+	body = jbig2.WriteSegmentHeader(body, 1, 48, 1, nil, uint32(len(pi)))
+	body = append(body, pi...)
+	body = jbig2.WriteSegmentHeader(body, 2, 6, 1, []uint32{0}, uint32(len(tr)))
+	body = append(body, tr...)
+	if ts.tail {
+		gr := jbig2.EncodeGenericRegionSegment(patternBitmap(page, page, 3), 0, 0, 1, bitmap.CombOpXOR, false, false)
+		body = jbig2.WriteSegmentHeader(body, 3, 38, 1, nil, uint32(len(gr)))
+		body = append(body, gr...)
+	}
+	if ts.huff {
+		tags = append(tags, "jbig2-text/huffman")
+	} else {
+		tags = append(tags, "jbig2-text/arith")
+	}
+	if nRef > 0 {
+		tags = append(tags, "jbig2-text/refine")
+		if nPlain > 0 {
+			if ts.huff {
+				tags = append(tags, "jbig2-text/huffman-refine-mixed-ri")
+			} else {
+				tags = append(tags, "jbig2-text/arith-refine-mixed-ri")
+			}
+		}
+	}
+	if ts.pageMul == 1 {
+		tags = append(tags, "jbig2-text/page=symbol")
+	}
+	return body, tags, ((page + 7) / 8) * page, true
+}
+
+// buildLarge: a 1024x1024 symbol (128 KiB) and six INTERMEDIATE text regions
+// of 4096x4096 pixels (2 MiB each, retained until the end of the page), each
+// with one refined and nine plain instances of the symbol.  Honest
+// accounting charges 2 MiB per region and runs out of the 8 MiB budget at
+// the fourth; an accounting which forgets what is alive lets all six live
+// (12 MiB), which the allocation bound of the single-filter path sees.  The
+// numbers stay inside the decoder's work limit (64 Mi pixel operations).
+func (ts textSpec) buildLarge() (body []byte, tags []string, expectOut int, ok bool) {
+	const sym, region, page = 1024, 4096, 64
+	symbols := []*bitmap.Bitmap{patternBitmap(sym, sym, 0)}
+	refined := patternBitmap(sym, sym, 0)
+	refined.SetPixel(1, 1, !refined.GetPixel(1, 1))
+	inst := []jbig2.SymbolInstance{{SymID: 0, T: 0, S: 0, Wi: sym, Hi: sym, Bitmap: refined}}
+	if ts.refine == 0 {
+		inst[0].Bitmap = nil
+	}
+	for i := 0; i < 9; i++ {
+		inst = append(inst, jbig2.SymbolInstance{SymID: 0, T: ((i + 1) / 4) * sym, S: ((i + 1) % 4) * sym, Wi: sym, Hi: sym})
+	}
+	var tr []byte
+	if ts.huff {
+		var err error
+		tr, err = jbig2.EncodeTextRegionSegmentHuffman(region, region, 0, 0, inst, symbols, 1, false, bitmap.CombOpOR, 1, 0, 0)
+		if err != nil {
+			return nil, nil, 0, false
+		}
+	} else {
+		tr = jbig2.EncodeTextRegionSegment(region, region, 0, 0, inst, symbols, 1, false, bitmap.CombOpOR, 1, 0, 0)
+	}
+	sd := jbig2.EncodeSymbolDictSegment(symbols, 1)
+	body = jbig2.WriteSegmentHeader(nil, 0, 0, 1, nil, uint32(len(sd)))
+	body = append(body, sd...)
+	pi := jbig2.WritePageInfo(nil, page, page)
+	body = jbig2.WriteSegmentHeader(body, 1, 48, 1, nil, uint32(len(pi)))
+	body = append(body, pi...)
+	for k := 0; k < 6; k++ {
+		body = jbig2.WriteSegmentHeader(body, uint32(2+k), 4, 1, []uint32{0}, uint32(len(tr)))
+		body = append(body, tr...)
+	}
+	tags = []string{"jbig2-text/large-intermediate-regions"}
+	if ts.huff && ts.refine != 0 {
+		tags = append(tags, "jbig2-text/huffman-refine-mixed-ri")
+	}
+	return body, tags, 0, true
 }
